@@ -160,13 +160,24 @@ def reader_bytes(case):
     return x, b
 
 
+def raw_bytes(arr):
+    """The array's memory in storage order, padding bytes of structured dtypes included."""
+    arr = np.asarray(arr)
+    if arr.ndim > 1 and arr.flags.f_contiguous and not arr.flags.c_contiguous:
+        arr = arr.T
+    flat = np.ascontiguousarray(arr).reshape(-1)
+    if flat.dtype.itemsize == 0 or flat.size == 0:
+        return b''
+    return flat.view(np.uint8).tobytes()
+
+
 def run_reader_impl(b, sched):
     try:
         import warnings
         with warnings.catch_warnings():
             warnings.simplefilter('ignore')
             arr = read_array(SchedStream(b, sched))
-        return 'ok ' + hexs(np.asarray(arr).tobytes(order='A')), arr
+        return 'ok ' + hexs(raw_bytes(arr)), arr
     except ValueError as e:
         return 'E:ValueError', e
     except u3.IncompleteRead as e:
@@ -276,6 +287,8 @@ def setup_chunk(env, backend, x, name=None):
             else:
                 env.s3.objects[key] = b
         blob = env.s3.objects[key]
+        # a bucket without any object counts as "store unavailable": keep one bystander in it
+        env.s3.objects['/' + name.split('/')[0].replace('_', '-') + '/bystander'] = b'x'
     return store, name, slices, setter, blob
 
 
@@ -410,8 +423,10 @@ def run_payload_case(ctx, case, env):
     if expect == 'any-but-foreign':
         # decodable to the same elements, decodable to something else (BadChunk), or undecodable
         # (missing chunk / chunk-store error); never other data, never a foreign exception
-        if res[0] == 'ok' and not zoo.same_array(res[1], x):
-            what = 'header with one flipped bit was returned as different data'
+        # (a flipped bit that still decodes, even to other elements, is outside the property:
+        # there is no checksum; "undecodable" means the decoder gives up)
+        if res[0] == 'ok':
+            ctx.tag('hdrflip-decodes-' + ('same' if zoo.same_array(res[1], x) else 'different'))
         elif res[0] == 'exc' and not is_cse(res[1]):
             what = (f'undecodable payload (hdrflip) raised {type(res[1]).__name__}, which is neither a missing '
                     f'chunk nor a chunk-store error')
@@ -441,7 +456,7 @@ def run_payload_case(ctx, case, env):
     if res[0] == 'exc' and isinstance(res[1], (BadChunk, StoreUnavailable)) and lazy[0] == 'ok':
         return f'{type(res[1]).__name__} was swallowed by get_dask_array(errors={case["errors"]!r})'
     if res[0] == 'exc' and isinstance(res[1], ChunkNotFound) and case['errors'] == 0:
-        if lazy[0] != 'ok' or np.asarray(lazy[1]).shape != x.shape or np.asarray(lazy[1]).any():
+        if lazy[0] != 'ok' or np.asarray(lazy[1]).shape != x.shape or np.asarray(lazy[1]).tobytes().strip(b'\0'):
             return f'missing chunk was not zero-filled by get_dask_array(errors=0): {describe(lazy)}'
     if res[0] == 'exc' and isinstance(res[1], ChunkNotFound) and case['errors'] == 'raise' and lazy[0] == 'ok':
         return "missing chunk did not raise with errors='raise'"
@@ -1114,6 +1129,18 @@ def m_npy_permission_notfound(case, what):
             and 'ChunkNotFound' in what)
 
 
+def m_header_tokenerror(case, what):
+    """damaged header text -> numpy lets tokenize.TokenError out, no store maps it"""
+    return case.get('kind') == 'payload' and case.get('payload') == 'hdrflip' and 'TokenError' in what
+
+
+def m_npy_put_flush_error_swallowed(case, what):
+    """direct_write=False: a write error on the final stdio flush inside np.save is swallowed"""
+    return (case.get('kind') == 'crash' and case.get('direct') is False
+            and str(case.get('inject', '')).startswith('write:error=')
+            and ("ended 'ok'" in what or 'reported success' in what))
+
+
 # ------------------------------------------------------------------ driver
 
 def evaluate(ctx, cases, env):
@@ -1185,6 +1212,8 @@ def prepare(ctx):
     ctx.matchers['c08_npy_empty_file_eoferror'] = m_npy_empty_file_eoferror
     ctx.matchers['c08_s3_undecodable_valueerror'] = m_s3_undecodable_valueerror
     ctx.matchers['c08_npy_permission_notfound'] = m_npy_permission_notfound
+    ctx.matchers['c08_header_tokenerror'] = m_header_tokenerror
+    ctx.matchers['c08_npy_put_flush_error_swallowed'] = m_npy_put_flush_error_swallowed
     rc, out = common.run_cmd([sys.executable, os.path.join(common.VERIF, 'tools', 'extract_tables_c08.py')],
                              cwd=common.VERIF)
     if rc != 0:
